@@ -1149,7 +1149,7 @@ def check_C10(ctx):
                     kind = "missed-%s-condition" % e["kind"]
                 elif cls != "user:ConditionError":
                     kind = "other-error"
-                elif run.get("ckind") != e["kind"] or run.get("msg") != msg:
+                elif run.get("ckind") != e["kind"] + "-condition" or run.get("msg") != msg:
                     kind = "wrong-condition-reported"
             if kind is None and run["events"] != ev:
                 kind = "event-sequence"
@@ -1197,4 +1197,106 @@ META["C10"] = {
     "technique": "TLA+ specification of condition inheritance and order (Conditions.tla) enumerated by TLC; table conformance on both engines",
     "design_ref": "DESIGN.md section 5 C10",
     "engine": "E4 table",
+}
+
+
+# =====================================================================================
+# C07 — view functions have no observable side effects (spec/lang/Purity.tla)
+# =====================================================================================
+PUR_FILES = ["lang/Purity.tla", "lang/MC_Purity.cfg", "lang/MC_Purity_thorough.cfg"]
+
+
+def check_C07(ctx):
+    binary = ctx.build("lang")
+    r = ctx.tlc(PUR_FILES, "Purity", "MC_Purity.cfg" if ctx.quick else "MC_Purity_thorough.cfg", workers=1, timeout=1200)
+    rows = list({json.dumps(x, sort_keys=True): x for x in r.json_lines()}.values())
+    rows.sort(key=lambda x: json.dumps(x, sort_keys=True))
+    if len(rows) < 1000:
+        raise Infra("Purity.tla printed only %d rows" % len(rows))
+    for i, x in enumerate(rows):
+        x["id"] = i + 1
+    cf = os.path.join(ctx.work, "pur-cases.ndjson")
+    rf = os.path.join(ctx.work, "pur-results.ndjson")
+    write_ndjson(cf, rows)
+    ctx.run([binary, "pur", cf, rf, "src"], timeout=2400)
+    res = {x["id"]: x for x in read_ndjson(rf) if not x.get("summary")}
+    if len(res) != len(rows):
+        raise Infra("driver returned %d results for %d cases" % (len(res), len(rows)))
+    corrupt = os.environ.get("VERIF_SELFTEST_CORRUPT") == "C07"
+    n_rej = n_acc = n_exec = 0
+    accepted_classes, blind = set(), []
+    for x in rows:
+        v = res[x["id"]]
+        path = x["path"] if isinstance(x["path"], str) else "+".join(x["path"])
+        if v.get("fixture"):
+            raise Infra("C07 fixture/renderer problem for case %s: %s\n%s" % ({k: x[k] for k in x if k != "id"}, v["fixture"], v.get("body")))
+        if not v["accepted"]:
+            if v.get("other"):
+                # rejected (also) for a reason outside purity: the rendered program is outside the fragment
+                raise Infra("C07 renderer: case %s rejected with non-purity errors %s\n%s" %
+                            ({k: x[k] for k in x if k != "id"}, v["other"], v.get("body")))
+            n_rej += 1
+            continue
+        n_acc += 1
+        accepted_classes.add((x["op"], x["root"], path, x["site"]))
+        seen_any = False
+        for run in v["runs"]:
+            n_exec += 1
+            if run["class"] != "ok":
+                raise Infra("C07: accepted case %s fails at run time on %s (renderer must produce runnable programs): %s\n%s"
+                            % ({k: x[k] for k in x if k != "id"}, run["engine"], run.get("err"), v.get("body")))
+            if corrupt and x["op"] == "length" and x["root"] == "refparam" and path == "direct" and x["site"] == "body":
+                run = dict(run, after=run["after"] + "!")      # negative control: corrupt one recorded snapshot
+            obs = []
+            if run["before"] != run["after"]:
+                obs.append("value-changed")
+            if run["writes"] > 0:
+                obs.append("register-writes")
+            if run.get("events"):
+                obs.append("event")
+            if not obs:
+                continue
+            seen_any = True
+            sig = {"op": "emit-statement" if x["op"] == "emitStatement" else x["op"], "root": x["root"], "path": path,
+                   "site": x["site"], "engine": run["engine"], "observed": ",".join(obs), "model_effect": x["effect"]}
+            ctx.report(sig, "view context accepted by the checker has an observable effect on %s: %s\n  case %s\n  before %s\n  after  %s\n  events %s writes %d\n%s"
+                       % (run["engine"], obs, {k: x[k] for k in x if k != "id"}, run["before"], run["after"], run.get("events"),
+                          run["writes"], v.get("body")),
+                       {"case": x, "run": run, "source": v.get("src")})
+        if x["effect"] != "none" and not seen_any:
+            blind.append(x)
+    if blind:
+        x = blind[0]
+        raise Infra("C07 blind spot: %d accepted case(s) for which the model predicts an effect but none was observed "
+                    "(snapshot misses it, or the model is wrong), e.g. %s\n%s" % (len(blind), {k: x[k] for k in x if k != "id"}, res[x["id"]].get("body")))
+    shown = [x for x in rows if res[x["id"]]["accepted"]]
+    rej = [x for x in rows if not res[x["id"]]["accepted"]]
+    for x in (shown[len(shown) // 3], rej[len(rej) // 2], rej[-9]):
+        ctx.add_sample({"case": {k: x[k] for k in x if k != "id"}, "view_context": res[x["id"]]["body"],
+                        "checker": "accepts" if res[x["id"]]["accepted"] else "rejects (PurityError)"})
+    return ctx.finish({
+        "traces_validated_against_impl": n_exec,
+        "evaluations": len(rows), "rejected_by_checker": n_rej, "accepted_by_checker": n_acc, "executions": n_exec,
+        "distinct_nontrivial": len(accepted_classes),
+        "rule": "rows of the table enumerated by TLC from Purity.tla (operation x root x path x site with the model's effect class); every row is "
+                "rendered as a view function / view method / condition in a contract and deployed (real checker); distinct_nontrivial = accepted "
+                "(operation, root, path, site) classes, each executed on interpreter and VM with value snapshots before/after, host register "
+                "writes and host events observed",
+        "exhaustive": True,
+    }, assumptions=["observation: string snapshots of every pre-existing struct/array/dictionary/contract field, ledger writes of the calling transaction, emitted events",
+                    "a case rejected with any non-purity error, or accepted but failing at run time, is a harness error (exit 2)",
+                    "an accepted case whose model effect is not 'none' but shows nothing is reported as a blind spot (exit 2), never silently passed"])
+
+
+META["C07"] = {
+    "level_text": "TLC enumerates the table of Purity.tla: 40 operations (assignments, index/member writes, every mutating and non-mutating array/dictionary "
+                  "built-in, impure/entitled/view calls, swaps, emit, log, storage and capability calls) x 10 roots (reference parameter, contract field, "
+                  "self, by-value parameter, local, references to those, account) x 10 access paths (direct, optional chaining, force unwrap, optional "
+                  "binding, wrapper field, array of references, closure, view closure, dereferenced copy, bound function) x site (view function/method "
+                  "body, pre-, post-condition) with the model's effect class and its laws; each row is compiled by the real checker; every accepted row "
+                  "is executed on both engines under observation (snapshots, register writes, events); accepted + observed effect = violation.",
+    "level_note": "Trusted: TLC, the Go renderer, the snapshot function. Nesting depth: quick = one path element, thorough = two.",
+    "technique": "TLA+ effect model (Purity.tla) enumerated by TLC; checker verdict + observed execution on both engines",
+    "design_ref": "DESIGN.md section 5 C07, section 7 #8a",
+    "engine": "E4 table + execution",
 }
